@@ -27,8 +27,11 @@ def _(p):
 def _(p):
     from harness import ch_c14
 
-    c = ch_c14.classify(p["s"])
-    return f"{c}: formula {p['s']!r}" if c.startswith("escape") else None
+    kw = {}
+    if p.get("flags") is not None:
+        kw = {"flags": tuple(p["flags"]), "include_intercept": bool(p.get("ii", True))}
+    c = ch_c14.classify(p["s"], **kw)
+    return f"{c}: formula {p['s']!r}" + (f" ({kw})" if kw else "") if (c.startswith("escape") or (c == "python-syntax" and p.get("valid_python"))) else None
 
 
 @replay("c17_formula")
